@@ -193,7 +193,9 @@ def tight_case(draw):
     names = draw(st.sampled_from([['x', 'y'], ['T', 'K'], ['K', 'x'], ['x', 'y']]))[:n]
     tol = draw(st.sampled_from(['1e-2', '1e-3', '1e-4', '5e-2', '1e-5']))
     T = float(tol)
-    kind = draw(st.sampled_from(['flip', 'flip', 'slow-decay', 'drift', 'rotation', 'stable', 'trend']))
+    kind = draw(st.sampled_from(['flip', 'flip', 'slow-decay', 'drift', 'rotation', 'stable', 'trend', 'small-level']))
+    if kind == 'small-level':
+        n, names = 2, names[:1] + ['y'] if len(names) == 1 else names[:2]
     A = [[0] * n for _ in range(n)]
     b = [0] * n
     if kind == 'flip':
@@ -206,11 +208,19 @@ def tight_case(draw):
         A[0][1], A[1][0] = -100, 100
     else:
         A[0][0] = draw(st.integers(-90, 90))
-    if n == 2 and kind != 'rotation':
+    if kind == 'small-level':
+        # a level that is genuinely non-zero but below 1e-4 (a daily interest rate), held exactly constant, and a second
+        # variable that depends on its lag with a large gain
+        A[0][0] = 100
+        A[1] = [draw(st.sampled_from([100000, 5000000, -250000])), 0]
+        b[1] = draw(st.sampled_from([0, 0, 300]))
+    elif n == 2 and kind != 'rotation':
         A[1][1] = draw(st.integers(-90, 90))
         A[1][0] = draw(st.sampled_from([0, 0, 50, -100]))
     u = draw(st.sampled_from([0.6, 0.9, 0.3, 0.45, 1.5, 5.0, 100.0, 0.05]))
     ics = [[nm, repr(T * u * draw(st.sampled_from([1, -1, 0.5])))] for nm in names]
+    if kind == 'small-level':
+        ics = [[names[0], repr(draw(st.sampled_from([8.2e-5, -5.5e-5, 3e-5, 9.9e-5])))]]
     if kind == 'drift':
         b[0] = draw(st.sampled_from([1, -1]))
         drift = repr(T * u * b[0])
@@ -228,6 +238,8 @@ def tight_case(draw):
                 parts.append(blocks.fmt_coef_term(A[i][j], 'LAG_' + names[j], 0))
         if kind == 'drift' and i == 0:
             parts.append(('+', '(' + drift + ')'))
+        if kind == 'small-level' and i == 1 and b[1]:
+            parts.append(('+', dec(b[1])))
         if trend is not None and i == 0:
             parts.append(('+', draw(st.sampled_from(['3.0', '-7.5', '100.0']))))
             parts.append(('+', trend + draw(st.sampled_from(['*t', '*k']))))
@@ -273,6 +285,14 @@ def run_tight(spec):
     # largest backward change the acceptance rule can have let through, per variable
     dmax = max(max(T, 2e-4, T * abs(v)) for v in x0.values())
     bound = max(1.0, spec['cert']['norm']) * dmax * (1.0 + 1e-6) + 1e-12
+    # the same argument with the changes the search ACTUALLY ended with (public attribute TimeSeriesInitialSteadyState):
+    # the state that is installed is the state that was verified, so one more exact period moves nothing by more than
+    # |A| times the largest last change - zero, if the search had come to rest exactly
+    ss = es.TimeSeriesInitialSteadyState
+    back = [abs(ss[v][-1] - ss[v][-2]) for v in ss.keys() if v not in excluded and len(ss[v]) >= 2]
+    scale_ = max([1.0] + [abs(v_) for v_ in x0.values()])
+    bound_actual = max(1.0, spec['cert']['norm']) * max(back + [0.0]) * (1.0 + 1e-9) + 1e-12 * scale_ \
+        if back and 'trend' not in kind else None
     near = False
     for v, s in fwd.TimeSeries.items():
         if v in excluded:
@@ -280,6 +300,11 @@ def run_tight(spec):
         d = abs(s[1] - s[0])
         if abs(s[0]) < 10 * T:
             near = True
+        if bound_actual is not None and not d <= bound_actual:
+            raise Violation('C15/installed-state-not-the-verified-one',
+                            '%s accepted as steady: the search ended with a largest last change of %.3g, yet from the installed '
+                            'k=0 values %s moves from %r to %r in the next period (at most %.3g possible from the verified state)' %
+                            (kind, max(back), v, s[0], s[1], bound_actual))
         if not d <= bound:
             raise Violation('C15/accepted-not-steady',
                             '%s accepted as steady (search %d periods, tol %s) but %s moves from %r to %r in the next period; '
